@@ -95,6 +95,10 @@ class C06Engine(hist.Engine):
         n = hist.Node(u, "object", "Points", parent, p.name)
         self.model.nodes[u] = n
         self.model.removed.discard(u)
+        if any(q.endswith(hist.br(u)) for q in self.parent_removed):
+            # the node of the parent-route removal is still in the file (open finding): what is stored under this identifier
+            # from now on is that node, and consequences are attributed to it
+            self.stale_reuse.add(u)
         self.remember(p)
 
     def op_copy_back(self, op):
